@@ -205,7 +205,7 @@ func (e *Engine) verifyFunc(fn *ssa.Function, c *Contract, prop string) (rep *Fu
 			if len(en.Props) > 0 && prop != "" && !contains(en.Props, prop) {
 				continue
 			}
-			env := &SpecEnv{e: e, pre: e.entry, post: o.st, vars: ovars, pkg: pkg, paramsFirst: true, allocBefore: e.entry.allocTerm(), params: vars}
+			env := &SpecEnv{e: e, pre: e.entry, post: o.st, vars: ovars, pkg: pkg, paramsFirst: true, allocBefore: e.entry.allocTerm(), params: vars, topFr: fr}
 			g := env.evalBool(en.E)
 			e.emit(&Obligation{Kind: "post", Fn: key, Label: orStr(en.Label, fmt.Sprint(i+1)), PC: o.st.pc, Goal: g, Src: en.Src, Line: en.Line, Trace: o.st.trace})
 		}
@@ -253,6 +253,8 @@ func (e *Engine) resolveFrame(c *Contract, vars map[string]SVal, pkg *types.Pack
 		switch {
 		case m == "*":
 			fi.all = true
+		case m == "ghosts":
+			fi.ghosts = true
 		case m == "big":
 			fi.keys["BigVal"] = true
 		default:
@@ -346,7 +348,35 @@ func (e *Engine) resolveFrame(c *Contract, vars map[string]SVal, pkg *types.Pack
 // frameObligations: every heap component changed on this path and not named by modifies is unchanged for pre-existing objects.
 func (e *Engine) frameObligations(c *Contract, key string, st *State, vars map[string]SVal, pkg *types.Package) {
 	fi := e.frame
-	if fi == nil || fi.all {
+	if fi == nil {
+		return
+	}
+	if fi.all && fi.ghosts {
+		return
+	}
+	if fi.all {
+		// `modifies *` is the whole Go heap; ghost variables are spared when a caller applies such a contract,
+		// so here every ghost the contract does not list must be shown unchanged
+		for _, k := range sortedKeys(st.heap) {
+			if !strings.HasPrefix(k, "G:") || strings.HasPrefix(k, "G:$") || fi.keys[k] {
+				continue
+			}
+			final := st.heap[k]
+			entry := e.entry.heapGet(k, heapSorts[k])
+			if final == entry {
+				continue
+			}
+			e.emit(&Obligation{Kind: "frame", Fn: key, Label: shortHeapKey(k), PC: st.pc, Goal: Eq(final, entry), Src: "ghost " + k[2:] + " is not listed in modifies and must be unchanged", Trace: st.trace})
+		}
+		for k := range st.hv {
+			if strings.HasPrefix(k, "G:") && !strings.HasPrefix(k, "G:$") && !fi.keys[k] {
+				if _, inHeap := st.heap[k]; !inHeap {
+					if srt, known := heapSorts[k]; known {
+						e.emit(&Obligation{Kind: "frame", Fn: key, Label: shortHeapKey(k), PC: st.pc, Goal: Eq(st.heapGet(k, srt), e.entry.heapGet(k, srt)), Src: "ghost " + k[2:] + " is not listed in modifies and must be unchanged", Trace: st.trace})
+					}
+				}
+			}
+		}
 		return
 	}
 	if st.epoch != 0 {
